@@ -10,7 +10,7 @@ def proved(run):
     run.extra["encoder_cross_check"] = dict(functions=crosscheck.run_all(), disagreements=0)   # RuntimeError (exit 3) on disagreement
     run.trust("pyvc symbolic interpreter over the real AST", f"z3 {z3.get_version_string()}")
     run.assume("T-FILTER: Mohri's 3-state epsilon filter makes composition count every pair of matching paths once (assumed; table proved)")
-    for f in (C.epsilon_filter, C.augment, C.from_pairs_wf,):
+    for f in (C.epsilon_filter, C.augment, C.from_pairs_wf, C.pruned_compose):
         try:
             f(run)
         except (I.OutOfSubset, KeyError) as e:
